@@ -106,6 +106,9 @@ class LeanSide:
     def __init__(self, pid):
         self.pid = pid
         self.props_file = os.path.join(LEAN, "CuqiVerif", "Props", f"{pid}.lean")
+        import glob as _glob
+        # additional theorem files of the same property: Props/Cxx_<topic>.lean
+        self.props_files = [self.props_file] + sorted(_glob.glob(os.path.join(LEAN, "CuqiVerif", "Props", f"{pid}_*.lean")))
         self.driver_file = os.path.join(LEAN, "Driver", f"{pid}.lean")
         self.report = {}
 
@@ -121,10 +124,16 @@ class LeanSide:
     def theorems(self):
         """names of the property theorems (the obligations) in Props/Cxx.lean, with line numbers"""
         out = []
+        for pf in self.props_files:
+            out += self._theorems_of(pf)
+        return out
+
+    def _theorems_of(self, pf):
+        out = []
         ns = []
-        if not os.path.exists(self.props_file):
+        if not os.path.exists(pf):
             return out
-        for i, line in enumerate(open(self.props_file), 1):
+        for i, line in enumerate(open(pf), 1):
             m = re.match(r"\s*namespace\s+(\S+)", line)
             if m:
                 ns.append(m.group(1)); continue
@@ -133,12 +142,12 @@ class LeanSide:
                 ns.pop(); continue
             m = re.match(r"\s*(?:@\[[^\]]*\]\s*)?(?:private\s+|protected\s+)?theorem\s+(\S+)", line)
             if m:
-                out.append((".".join(ns + [m.group(1)]), i))
+                out.append((".".join(ns + [m.group(1)]), i, pf))
         return out
 
     def closure(self):
         """files of this library transitively imported by Props/Cxx.lean (incl. itself)"""
-        seen, todo = [], [self.props_file]
+        seen, todo = [], list(self.props_files)
         while todo:
             f = todo.pop()
             if f in seen or not os.path.exists(f):
@@ -187,10 +196,11 @@ class LeanSide:
         rep = {"ok": False, "obligations": 0, "discharged": 0, "failed": [], "log": "", "axioms": {}}
         thms = self.theorems()
         rep["obligations"] = len(thms)
-        rep["theorems"] = [n for n, _ in thms]
+        rep["theorems"] = [t[0] for t in thms]
         rep["translator"] = self.regenerate()
         mod = f"CuqiVerif.Props.{self.pid}"
-        r = self._locked(["lake", "build", mod])
+        mods = ["CuqiVerif.Props." + os.path.basename(f)[:-5] for f in self.props_files]
+        r = self._locked(["lake", "build"] + mods)
         rep["build_rc"] = r.returncode
         if r.returncode != 0:
             log = r.stdout + r.stderr
@@ -200,10 +210,10 @@ class LeanSide:
             elsewhere = False
             for m in re.finditer(r"error: (\S+?\.lean):(\d+):(\d+)", log):
                 f, ln = m.group(1), int(m.group(2))
-                if f.endswith(f"Props/{self.pid}.lean"):
+                if any(pf.endswith(f) or f.endswith(os.path.relpath(pf, LEAN)) for pf in self.props_files):
                     enclosing = None
-                    for n, l in thms:
-                        if l <= ln:
+                    for n, l, pf in thms:
+                        if l <= ln and (pf.endswith(f) or f.endswith(os.path.relpath(pf, LEAN))):
                             enclosing = n
                     bad.add(enclosing or "<preamble>")
                 else:
@@ -223,8 +233,9 @@ class LeanSide:
         rep["forbidden"] = hits
         audit = os.path.join(LEAN, f".audit_{self.pid}.lean")
         with open(audit, "w") as fh:
-            fh.write(f"import {mod}\n")
-            for n, _ in thms:
+            for m_ in mods:
+                fh.write(f"import {m_}\n")
+            for n, _, _pf in thms:
                 fh.write(f"#print axioms {n}\n")
         r = self._locked(["lake", "env", "lean", audit])
         os.remove(audit)
@@ -237,7 +248,7 @@ class LeanSide:
             ax[m.group(1)] = []
         rep["axioms"] = ax
         failed = []
-        for n, _ in thms:
+        for n, _, _pf in thms:
             if n not in ax:
                 failed.append(n + " (not found by audit)")
             elif not set(ax[n]) <= ALLOWED_AXIOMS:
@@ -253,9 +264,9 @@ class LeanSide:
         return rep
 
     def leanchecker(self):
-        mod = f"CuqiVerif.Props.{self.pid}"
+        mods = ["CuqiVerif.Props." + os.path.basename(f)[:-5] for f in self.props_files]
         try:
-            r = self._locked(["lake", "env", "leanchecker", mod], timeout=1500)
+            r = self._locked(["lake", "env", "leanchecker"] + mods, timeout=1500)
             return {"rc": r.returncode, "tail": (r.stdout + r.stderr)[-400:]}
         except Exception as e:  # noqa
             return {"rc": -1, "tail": repr(e)}
